@@ -235,12 +235,17 @@ class FileDataPdu(AbstractPduBase):
         file_data_packet._pdu_header = PduHeader.unpack(data=data)
         file_data_packet._pdu_header.verify_length_and_checksum(data)
         current_idx = file_data_packet.pdu_header.header_len
+        # The file data ends where the PDU ends (before the CRC trailer if there is one), which is
+        # not necessarily the end of the passed buffer.
+        end_of_data = file_data_packet.pdu_header.packet_len
+        if file_data_packet.pdu_header.crc_flag == CrcFlag.WITH_CRC:
+            end_of_data -= 2
         if file_data_packet.pdu_header.segment_metadata_flag:
             rec_cont_state = RecordContinuationState((data[current_idx] & 0xC0) >> 6)
             segment_metadata_len = data[current_idx] & 0x3F
             current_idx += 1
-            if current_idx + segment_metadata_len > len(data):
-                raise BytesTooShortError(current_idx + segment_metadata_len, len(data))
+            if current_idx + segment_metadata_len > end_of_data:
+                raise BytesTooShortError(current_idx + segment_metadata_len, end_of_data)
             metadata = data[current_idx : current_idx + segment_metadata_len]
             current_idx += segment_metadata_len
             file_data_packet.segment_metadata = SegmentMetadata(
@@ -250,15 +255,14 @@ class FileDataPdu(AbstractPduBase):
             struct_arg_tuple = ("!I", 4)
         else:
             struct_arg_tuple = ("!Q", 8)
-        if current_idx + struct_arg_tuple[1] > len(data):
+        if current_idx + struct_arg_tuple[1] > end_of_data:
             raise ValueError("Packet too small to accommodate offset")
         file_data_packet._params.offset = struct.unpack(
             struct_arg_tuple[0],
             data[current_idx : current_idx + struct_arg_tuple[1]],
         )[0]
         current_idx += struct_arg_tuple[1]
-        if current_idx < len(data):
-            file_data_packet._params.file_data = data[current_idx:]
+        file_data_packet._params.file_data = data[current_idx:end_of_data]
         return file_data_packet
 
     @property
